@@ -1,3 +1,4 @@
 pub mod date;
 pub mod http;
 pub mod routes;
+pub mod sse;
